@@ -121,10 +121,13 @@ def check_msg(ctx, msg, tag, all_choices=True):
     ctx.expect_model(f'msgser {d.line()} {mtok}', M.show_cell(c) if c is not None else 'err', f'{tag} serialize')
     if c is not None:
         ctx.count('ser_ok')
-        ctx.count('placement:' + placement(msg, c))
+        try:
+            ctx.count('placement:' + placement(msg, c))
+        except Exception:
+            ctx.count('placement:unreadable')
         try:
             got = M.dec_message(c)
-        except ValueError as e:
+        except Exception as e:
             got = f'not a Message: {e}'
         if got != want:
             ctx.fail(f'ser-spec:{sh[0]}:extra{sh[1]}:init{sh[2]}', 'the serialised message does not decode (block.tlb reading) to the same message',
@@ -357,7 +360,7 @@ def sweep(ctx, pool):
                 for nr in range(5):
                     msg = dict(info=info, init=si, body=M.body_cell(rng, nb, nr, pool))
                     k += 1
-                    check_msg(ctx, msg, 'sweep', all_choices=ctx.thorough or k % 3 == 0 or nb in limits)
+                    check_msg(ctx, msg, 'sweep', all_choices=ctx.thorough or k % 2 == 0 or nb in limits)
 
 
 def random_msgs(ctx, pool, n):
@@ -403,7 +406,7 @@ def run(ctx):
     check_msg(ctx, f17, 'F17')
     sweep(ctx, pool)
     header_limit(ctx, pool)
-    random_msgs(ctx, pool, ctx.n(250, 4000))
+    random_msgs(ctx, pool, ctx.n(700, 10000))
     for t in range(ctx.n(40, 400)):
         check_state_init(ctx, M.rand_state_init(rng, pool), 'si')
     for nr in range(4):
